@@ -219,7 +219,11 @@ def check_expression(ctx: Ctx, inp) -> None:
     if malformed:
         if raised is None and got is rex.UNRES:
             ctx.inconclusive_case("ill-formed expression evaluated to 'unresolvable' (no value is passed on)")
-        elif raised is None and "{" not in expr and any(expr.startswith(v) and len(expr) > len(v) for v in ("$url", "$method", "$statusCode")):
+        elif raised is None and (
+            ("{" not in expr and any(expr.startswith(v) and len(expr) > len(v) for v in ("$url", "$method", "$statusCode")))
+            # the same inside braces: `{$statusCode.}` - a variable glued to more text within one embedded expression
+            or re.search(r"\{\$(url|method|statusCode)[^}]+\}", expr) is not None
+        ):
             ctx.disagree("malformed-expression-evaluated:bare-variable-followed-by-text", f"{expr!r} is not an expression of the ABNF (text after a bare variable needs the embedded `{{...}}` form) but evaluates to {got!r}", input=inp)
         elif raised is None:
             ctx.disagree("malformed-expression-evaluated", f"ill-formed expression {expr!r} evaluated to {got!r} instead of being rejected", input=inp)
